@@ -351,3 +351,37 @@ def one_member_tuple_text_form(ctx):
         return
     ctx.check(ok, f'{f.qualname}:one-member tuple has a trailing comma', f.node, 'a trailing comma is written when len(members) == 1',
               "a tuple with a single member is written as '(1)', which literal_eval reads as the int 1: from_string(to_string(v)) is refused", f)
+
+
+@rule('C02.R6d', min_instances=1)
+def enum_text_is_the_member_name_first(ctx):
+    """EnumType: to_string is the member NAME, so from_string has to try the text as a name before it tries it as a
+    python literal (a member may be called '1' or '10': read as a literal it would select the member with that CODE)"""
+    m = ctx.m
+    ci = _cls(m, 'EnumType')
+    ts, fs = ci.methods.get('to_string'), ci.methods.get('from_string')
+    if ts is None or fs is None:
+        raise AnchorMissing('EnumType.to_string / from_string not found', violation=f'{ci.qualname}:text form is the member name')
+    ctx.analysed(fs)
+    name_form = all(isinstance(r.value, ast.Attribute) and r.value.attr == 'name' for r in body_walk(ts.node) if isinstance(r, ast.Return))
+    if not name_form:
+        ctx.undecided(f'{fs.qualname}:name lookup before literal evaluation', ts.node, 'to_string does not return value.name', ts)
+        return
+    from sa.cfg import CFG
+    cfg = CFG(fs.node, m, fs.module)
+    tp = fs.node.args.args[1].arg
+    lit = [c for c in calls_in(fs.node) if (call_attr(c) == 'from_string' and 'super()' in src(c.func)) or call_attr(c) == 'literal_eval']
+    byname = [c for c in calls_in(fs.node) if src(c.func) in ('self._enum', 'self') and c.args and
+              any(isinstance(x, ast.Name) and x.id == tp for x in ast.walk(c.args[0]))]
+    if not byname:
+        ctx.bad(f'{fs.qualname}:name lookup before literal evaluation', fs.node, 'from_string never looks the text up as a member name: '
+                'the text form offered by to_string (the bare name) is not accepted back', fs)
+        return
+    nid = [i for c in byname for i in cfg.node_of(c)]
+    for c in lit:
+        ok = all(cfg.dominates(nid, i) for i in cfg.node_of(c))
+        ctx.check(ok, f'{fs.qualname}:name lookup before literal evaluation', c, 'the literal form is tried only after the name lookup failed',
+                  f'`{src(c)}` runs before the text was tried as a member name: for an enum with a member named like a number literal '
+                  "(e.g. {'1': 0, '2': 1}) the text '1' produced by to_string for code 0 is read as the code 1 - another member", fs)
+    if not lit:
+        ctx.ok(f'{fs.qualname}:name lookup before literal evaluation', fs.node, 'only the name lookup', fs)
